@@ -1637,3 +1637,48 @@ def r2_8(rep):
             continue
         rep.check(prims == [want[nm]], "named-typedef:" + nm, "`%s` -> %s (C: %s)" % (nm, prims, want[nm]), t.loc(a["body"]))
     rep.need(len(seen) >= 13, "rows of the type_from_named table")
+
+
+@RULES.rule("R2.9", "member offsets are libclang's, whatever is or is not asserted about them (shared with C06 R6.4)", floor=6)
+def r2_9(rep):
+    """`FieldData::offset` does not only feed the offset assertions: it decides the explicit padding in front of over-aligned members
+    and where a run of bit-fields starts.  Querying it only when layout tests are enabled makes `--no-layout-tests` change the
+    LAYOUT (`struct { char c; int v __attribute__((aligned(8))); }` puts v at 4).  The provenance rule is C06's."""
+    import c06
+    c06.r6_4(rep)
+
+
+@RULES.rule("R2.10", "the gap in front of a bit-field unit is filled whenever libclang places the run later (unions excepted)", floor=1)
+def r2_10(rep):
+    """A bit-field unit is a byte array: `repr(packed)` cannot move it, and even inside a packed record a zero-width bit-field makes the
+    next run start at the next boundary (`#pragma pack(2) struct { char a; int :0; unsigned b:3; }` has b at byte 4).  The only
+    conditions on the padding are therefore "not a union" and "libclang's offset is beyond the running offset"; excluding packed
+    records as well puts the unit at byte 1 and shrinks the struct from 12 to 8 bytes."""
+    prog = rep.prog
+    b = rep.need(next((x for p, x in prog.bodies.items() if p.endswith("::saw_bitfield_unit") and "StructLayoutTracker" in p), None),
+                 "StructLayoutTracker::saw_bitfield_unit")
+    subs = [n for n in b.nodes if n["k"] == "Binary" and n["op"] == "-" and "latest_offset" in b.canon(n["r"], 4) and "/ lit:8" in b.canon(n["l"], 4).replace("'", "")]
+    rep.need(subs, "the padding computation `offset / 8 - latest_offset` in saw_bitfield_unit")
+    for s_ in subs:
+        if b.macro_name(s_):
+            continue
+        extra = []
+        for pol, kind, g in b.guards(s_):
+            if kind != "cond":
+                continue
+            todo = [(pol, strip(g))]
+            while todo:
+                pl, e = todo.pop()
+                if e.get("k") == "Unary" and e.get("op") == "!":
+                    todo.append((not pl, strip(e["e"])))
+                elif e.get("k") == "Binary" and e["op"] == ("&&" if pl else "||"):
+                    todo += [(pl, strip(e["l"])), (pl, strip(e["r"]))]
+                else:
+                    src = b.canon(e, 5)
+                    if "CompInfo::is_union" in src and not pl:
+                        continue
+                    if e.get("k") == "Binary" and e["op"] in (">", "<", ">=", "<=") and "latest_offset" in src:
+                        continue
+                    extra.append(("" if pl else "!") + src[:60])
+        rep.check(not extra, "unit-gap-conditions", "padding is emitted for every non-union record whose run starts beyond the running offset" if not extra else
+                  "the padding is additionally conditioned on %s: the unit of such a record is placed too early" % ", ".join(extra), b.loc(s_))
